@@ -19,18 +19,24 @@ type simMutant struct {
 	name string
 	m    mut
 	r    rules
+	ext  bool // a mutant of the further families: explored on the configurations that have them
 }
 
 var simMutants = []simMutant{
-	{"unuse-package drops the own definitions of the unusing package", mut{unuseDropsOwn: true}, rules{}},
-	{"unexport leaves the definition exported (stale visibility in users)", mut{unexportNoEffect: true}, rules{}},
-	{"export has no effect (users never see the definition)", mut{exportNoEffect: true}, rules{}},
-	{"makunbound also removes the same-named own variable of every user", mut{makunboundInUsers: true}, rules{}},
-	{"fmakunbound removes nothing (stale function)", mut{fmakunboundNothing: true}, rules{}},
-	{"defun also overwrites the same-named function of the used packages", mut{defunInUsed: true}, rules{}},
-	{"unexported definitions of used packages are visible", mut{}, rules{privateInherited: true}},
-	{"p:n reaches unexported definitions", mut{}, rules{extIgnoresExport: true}},
-	{"an exported definition of a used package shadows the own one", mut{}, rules{usedShadowsOwn: true}},
+	{"unuse-package drops the own definitions of the unusing package", mut{unuseDropsOwn: true}, rules{}, false},
+	{"unexport leaves the definition exported (stale visibility in users)", mut{unexportNoEffect: true}, rules{}, false},
+	{"export has no effect (users never see the definition)", mut{exportNoEffect: true}, rules{}, false},
+	{"makunbound also removes the same-named own variable of every user", mut{makunboundInUsers: true}, rules{}, false},
+	{"fmakunbound removes nothing (stale function)", mut{fmakunboundNothing: true}, rules{}, false},
+	{"defun also overwrites the same-named function of the used packages", mut{defunInUsed: true}, rules{}, false},
+	{"unexported definitions of used packages are visible", mut{}, rules{privateInherited: true}, false},
+	{"p:n reaches unexported definitions", mut{}, rules{extIgnoresExport: true}, false},
+	{"an exported definition of a used package shadows the own one", mut{}, rules{usedShadowsOwn: true}, false},
+	// the further families (explored on the configurations that have them)
+	{"a name imported through the Go interface does not resolve in the importer", mut{}, rules{importInvisible: true}, true},
+	{"an imported name resolves only when its definition is exported", mut{}, rules{importExportOnly: true}, true},
+	{"delete-package leaves the use edges of the deleted package", mut{deleteKeepsEdges: true}, rules{}, true},
+	{"a function defined through Package.Define is not exported to the users", mut{godefNotExported: true}, rules{}, true},
 }
 
 // simObserve: what the simulated implementation shows in state g.
@@ -42,6 +48,14 @@ func simObserve(g *graph, r rules, slots []slot) []observation {
 			for k := range g.expected(rules{}, sl) {
 				obs[i].val = k
 			}
+			continue
+		}
+		if g.p[sl.c].deleted {
+			obs[i].val = "D"
+			continue
+		}
+		if g.p[sl.q].deleted {
+			obs[i].val = "U"
 			continue
 		}
 		v := "U"
@@ -85,6 +99,11 @@ func simResolve(g *graph, r rules, p int, kind byte, n string) string {
 	}
 	if own := g.tab(p, kind)[n]; own != nil {
 		return valStr(own.val)
+	}
+	if m := g.p[p].imports[n]; m != nil && m.kind == kind && !r.importInvisible && !g.p[m.from].deleted {
+		if d := g.tab(m.from, kind)[n]; d != nil && d.val != unboundVal && (d.exp || !r.importExportOnly) {
+			return valStr(d.val)
+		}
 	}
 	return used()
 }
@@ -147,7 +166,7 @@ func selftest(tier string) (killed, total int, notes []string) {
 	for _, c := range []struct {
 		cfg   *config
 		depth int
-	}{{smallCfg, 64}, {fullCfg, fullD}} {
+	}{{smallCfg, 64}, {fullCfg, fullD}, {lispCfg, 2}, {goCfg, 2}} {
 		flag, n := simExplore(c.cfg, simMutant{}, c.depth, 400000)
 		if flag != "" {
 			notes = append(notes, "the oracle rejects its own reference: "+flag)
@@ -157,8 +176,12 @@ func selftest(tier string) (killed, total int, notes []string) {
 	}
 	for _, sm := range simMutants {
 		total++
-		flag, _ := simExplore(smallCfg, sm, 64, 400000)
-		if flag == "" {
+		flag := ""
+		if sm.ext {
+			if flag, _ = simExplore(goCfg, sm, 3, 400000); flag == "" {
+				flag, _ = simExplore(lispCfg, sm, 3, 400000)
+			}
+		} else if flag, _ = simExplore(smallCfg, sm, 64, 400000); flag == "" {
 			flag, _ = simExplore(fullCfg, sm, 3, 400000)
 		}
 		if flag != "" {
